@@ -111,7 +111,8 @@ FVE(e) ==
       [] e.k = "unwrapinto" -> FVE(e.e)
       [] e.k = "fn" -> FVFn(e)
       [] OTHER -> {}
-Declares(s) == IF (s.k = "let" /\ ~s.mod) \/ s.k = "class" THEN {s.n}
+Declares(s) == IF s.k = "unpack" THEN {s.ns[j] : j \in 1..Len(s.ns)}
+               ELSE IF (s.k = "let" /\ ~s.mod) \/ s.k = "class" THEN {s.n}
                ELSE IF s.k = "expr" /\ s.e.k = "unwrapinto" THEN {s.e.n} ELSE {}
 FVS(s, bound) ==
     CASE s.k = "let" -> (FVE(s.e) \cup (IF s.mod THEN {s.n} ELSE {})) \ bound
@@ -123,6 +124,7 @@ FVS(s, bound) ==
                          \cup FVB(s.b, 1, bound \cup (IF s.n = "" THEN {} ELSE {s.n}))
       [] s.k = "assign" -> (FVE(s.target) \cup FVE(s.e)) \ bound
       [] s.k = "class" -> ClassFV(s) \ bound
+      [] s.k = "unpack" -> FVE(s.e) \ bound
       [] OTHER -> {}
 ClassFV(c) ==
     LET RECURSIVE MFV(_, _)
@@ -525,6 +527,13 @@ Exec(s, env, st) ==
                 IF s.export /\ Len(w.st.modinit) > 0
                 THEN ER(w.env, [w.st EXCEPT !.modexp[w.st.curmod] = Bind(@, s.n, LookupOwn(w.env, s.n))])
                 ELSE w
+      [] s.k = "unpack" ->
+           LET r == Eval(s.e, env, st) IN
+           IF ~IsOk(r.st) THEN ER(env, r.st)
+           ELSE IF r.v.t # "list" \/ Len(r.st.lists[r.v.id]) < Len(s.ns) THEN ER(env, FailWith(r.st, "type"))
+           ELSE LET RECURSIVE Go(_, _)
+                    Go(j, acc) == IF j > Len(s.ns) THEN acc ELSE Go(j + 1, Store(acc.env, acc.st, s.ns[j], r.st.lists[r.v.id][j]))
+                IN Go(1, ER(env, r.st))
       [] s.k = "import" -> ImportStmt(s, env, st)
       [] s.k = "class" ->
            LET vis == Visible(env)
